@@ -600,6 +600,28 @@ func cmdRandom(profile string, seed int64, steps, runs int, out string) error {
 		if err := r.Step(M{"a": "InitChain", "g": genToM(g)}); err != nil {
 			return err
 		}
+		if lqProb > 0 {
+			// list queries: the group policy account (32-byte address) is sender and receiver of a stream, owner of a
+			// WRKChain and a BEACON and purchaser of an order from the first block on
+			gx := func(member string, m M) M {
+				return M{"a": "DeliverTx", "msgs": []interface{}{M{"t": "GExec", "member": member, "msgs": []interface{}{m}}}}
+			}
+			tx := func(m M) M { return M{"a": "DeliverTx", "msgs": []interface{}{m}} }
+			pre := []M{{"a": "BeginBlock", "dt": int64(1000)},
+				tx(M{"t": "Send", "from": "A1", "to": "grp", "amt": int64(400), "denom": "nund"}),
+				tx(M{"t": "Whitelist", "signer": "A1", "addr": "grp", "act": "add"}),
+				gx("A1", M{"t": "SCreate", "sender": "grp", "receiver": "A3", "dep": int64(120), "denom": "nund", "rate": int64(1)}),
+				tx(M{"t": "SCreate", "sender": "A1", "receiver": "grp", "dep": int64(120), "denom": "nund", "rate": int64(1)}),
+				gx("A2", M{"t": "WReg", "owner": "grp", "moniker": "mg", "name": "n", "genesis": "g", "type": "geth"}),
+				gx("A1", M{"t": "BReg", "owner": "grp", "moniker": "bg", "name": "n"}),
+				gx("A1", M{"t": "Raise", "pur": "grp", "amt": int64(5), "denom": "nund"}),
+				{"a": "EndBlock"}, {"a": "Commit"}}
+			for _, ev := range pre {
+				if err := r.Step(ev); err != nil {
+					return err
+				}
+			}
+		}
 		n := 0
 		for n < steps && !r.W.Halted {
 			if err := r.Step(M{"a": "BeginBlock", "dt": d.dt()}); err != nil {
